@@ -176,6 +176,9 @@ static void race_check(const char *fn, const char *cl) {   /* internal buffers: 
   race_judge(fn, cl, g_race, 0, g_race ? g_race_addrs[0] : 0);
 }
 
+/* vacuity guard: a kernel that never starts a second worker makes the thread-count dimension meaningless.  Falling back to the
+ * sequential path for small inputs is a legitimate implementation choice, so the guard only fires where the rows are plentiful. */
+#define VACUOUS(th, n) ((th) > 1 && (n) >= 16 && (n) >= 4 * (th) && g_created < 2)
 static void harness_error(const char *what) { fprintf(stderr, "VX-HARNESS-ERROR: h_C13: %s\n", what); _exit(2); }
 
 /* ------------------------------------------------------------------ input classes and the (rows, threads) alphabet */
@@ -242,7 +245,7 @@ static void run_mtmv(int which, int n, int th, int c, int fam, dvector **out_fre
   mt(m, v, p); vx_transition(1);
   race_check_dv(fn, cl, p, NULL);
   if (g_nproc_calls == calls0) harness_error("GetNProcessor seam not reached by the MT_ product");
-  if (th > 1 && n >= th && g_created < 2) harness_error("the MT_ product ignored the processor count handed out by the GetNProcessor seam");
+  if (VACUOUS(th, n)) harness_error("the MT_ product ignored the processor count handed out by the GetNProcessor seam");
   int skipped = 0, twice = 0, bad = 0; double worst = 0, wtol = 0;
   for (int i = 0; i < n; i++) {
     double tol = 64.0 * DEPS * (c + 2) * (double)bnd[i] + 1e-300, d = fabs(p->data[i] - (double)ref[i]);
@@ -299,7 +302,7 @@ static void run_dist(int metric, int n, int th, int c, int fam, int m2kind, matr
   g_created = 0; race_reset();
   CalculateDistance(m1, m2, d, (size_t)th, (enum cmethod)metric); vx_transition(1);
   race_check_mx(fn, cl, d, NULL);
-  if (th > 1 && n >= th && g_created < 2) harness_error("kernel ignored its nthreads argument: the thread-count dimension would be vacuous");
+  if (VACUOUS(th, n)) harness_error("kernel ignored its nthreads argument: the thread-count dimension would be vacuous");
   KEY(key, "shape", fn, cl);
   int shape_ok = (int)d->row == r2 && (int)d->col == n;
   JUDGE(shape_ok, key, "%s (%d x %d) vs (%d x %d): result is %zu x %zu, expected %d x %d", fn, n, c, r2, c, d->row, d->col, r2, n);
@@ -371,7 +374,7 @@ static void run_cond(int metric, int n, int th, int c, int fam, dvector **out_fr
   g_created = 0; race_reset();
   CD_OF[metric](m, cd, (size_t)th); vx_transition(1);
   race_check_dv(fn, cl, cd, NULL);
-  if (th > 1 && n >= th && g_created < 2) harness_error("kernel ignored its nthreads argument: the thread-count dimension would be vacuous");
+  if (VACUOUS(th, n)) harness_error("kernel ignored its nthreads argument: the thread-count dimension would be vacuous");
   KEY(key, "shape", fn, cl); int shape_ok = (long)cd->size == N;
   JUDGE(shape_ok, key, "%s on %d rows: %zu entries, expected %ld", fn, n, cd->size, N);
   if (shape_ok) {
@@ -412,7 +415,7 @@ static void run_labels(int n, int th, int c, int fam, uivector **out_free) {
   g_created = 0; race_reset();
   getLabels_(m, cen, lab, th); vx_transition(1);
   race_check_uv(fn, cl, lab, NULL);
-  if (th > 1 && n >= th && g_created < 2) harness_error("kernel ignored its nthreads argument: the thread-count dimension would be vacuous");
+  if (VACUOUS(th, n)) harness_error("kernel ignored its nthreads argument: the thread-count dimension would be vacuous");
   int untouched = 0, notnear = 0;
   for (int i = 0; i < n; i++) {
     if (lab->data[i] == (size_t)-1) { untouched++; continue; }
@@ -425,6 +428,14 @@ static void run_labels(int n, int th, int c, int fam, uivector **out_free) {
   getLabels(m, cen, labst); getLabels_(m, cen, lab2, th); vx_transition(2); race_check_uv(fn, cl, lab2, NULL);
   KEY(key, "mt-vs-st", fn, cl); JUDGE(uiv_equal(lab, labst) || untouched, key, "%s with %d threads differs from getLabels (%d rows)", fn, th, n);
   KEY(key, "repeat", fn, cl); JUDGE(uiv_equal(lab, lab2), key, "%s with %d threads (%d rows): two runs differ", fn, th, n);
+  /* exact ties: two identical centroid rows are at bit-identical distances from every object whatever the arithmetic, so the
+   * tie-breaking rule itself is observable; "the single-threaded result for every requested thread count" includes it */
+  { for (int j = 0; j < c; j++) cen->data[2][j] = cen->data[0][j];
+    uivector *t1, *tn; NewUIVector(&t1, (size_t)n); NewUIVector(&tn, (size_t)n);
+    for (int i = 0; i < n; i++) t1->data[i] = tn->data[i] = labst->data[i] = (size_t)-1;
+    getLabels_(m, cen, tn, th); getLabels_(m, cen, t1, 1); getLabels(m, cen, labst); vx_transition(3); race_check_uv(fn, cl, tn, NULL);
+    KEY(key, "mt-vs-st-ties", fn, cl); JUDGE(uiv_equal(tn, t1) && uiv_equal(tn, labst), key, "%s on %d rows with two identical centroids (exact distance ties): %d threads, 1 thread and getLabels do not break the ties the same way", fn, n, th);
+    DelUIVector(&t1); DelUIVector(&tn); }
   DelMatrix(&m); DelMatrix(&cen); DelUIVector(&lab2); DelUIVector(&labst);
   if (out_free) *out_free = lab; else { vx_outcome(uiv_hash(lab, 400)); DelUIVector(&lab); }
 }
